@@ -65,8 +65,8 @@ class C09(Property):
         "values are unique publication ids, so the served publication is identified exactly",
         "consumers behind a push-based adapter are compared with the adapter's definition evaluated on the full history (see C11)",
     )
-    cases = {"quick": 1000, "thorough": 60000}
-    min_nontrivial = {"quick": 300, "thorough": 15000}
+    cases = {"quick": 3000, "thorough": 60000}
+    min_nontrivial = {"quick": 900, "thorough": 15000}
 
     def gen(self, rnd, i, tier):
         """topology: a tree below the output. nodes = adapters (parent -1 = the output);
